@@ -670,6 +670,10 @@ class MutObjOf(Kind):
     def sort(self):
         raise EngineLimit("MutObjOf has no single sort")
 
+    def __repr__(self):
+        return "%s%s" % (self.clsname.split(".")[-1], "{%s}" % ",".join("%s=%r" % kv for kv in sorted(self.overrides.items()))
+                         if self.overrides else "")
+
 
 class ListK(Kind):
     """A Python list of concrete length whose items are built from the given kinds."""
@@ -717,3 +721,24 @@ class RecorderK(Kind):
 
     def sort(self):
         raise EngineLimit("RecorderK has no single sort")
+
+
+class TupleK(Kind):
+    """A Python tuple of fixed length whose components are built from the given kinds (a Const for fixed values)."""
+
+    def __init__(self, *kinds):
+        self.kinds = list(kinds)
+
+    def build(self, ctx, mk):
+        out = []
+        for i, k in enumerate(self.kinds):
+            v = k.build(ctx, lambda s, so, i=i: mk("(%d)%s" % (i, s), so))
+            ctx.engine.assume_wellformed(ctx, v)
+            out.append(v)
+        return tuple(out)
+
+    def sort(self):
+        raise EngineLimit("TupleK has no single sort")
+
+    def __repr__(self):
+        return "tuple-of-%d" % len(self.kinds)
